@@ -81,6 +81,7 @@ bool heap_take_violation(HeapViolation *out); // pops the first pending violatio
 size_t heap_live_internal(Backend b, bool include_excused); // INTERNAL+NEW blocks of backend
 size_t heap_live_tree(Backend b);
 void heap_excuse_op_blocks(Backend b, int op_index); // blocks allocated in a faulted op may leak
+void heap_drop_tree_of_op(Backend b, int op_index); // the caller gives up the default-allocator blocks of a parse
 void heap_forget_all();     // drop registries (end of run; blocks are really freed)
 std::string heap_describe_live(Backend b, int max);
 // K_TREE registry queries for the tree walker (default tree allocator).
@@ -104,6 +105,9 @@ void step();
 
 // goto-cache self-check result
 extern int g_cache_mismatch_tok, g_cache_mismatch_kind; // tok = -1 if none
+
+// hook H6: parser list / token list lengths of the parse in flight (-1 if make_parse was not reached)
+extern int g_pl_last, g_pl_toks, g_announce_fd;
 
 // debug sink
 void sink_open();
